@@ -9,6 +9,10 @@ import (
 // Engine is the compiled query. It is able to evaluate the entire query.
 type Engine struct {
 	Statements []*Statement
+
+	// evaluating holds the names of the variables that are being evaluated
+	// right now. It is used to detect a variable that refers to itself.
+	evaluating map[string]bool
 }
 
 // Evaluate executes all of the expressions and returns the final result.
